@@ -41,8 +41,9 @@ CHECKS["C18"] = {
     "text": "Proof (Verus, unbounded) of the namespace privilege decision on the real PrivilegeGroup / NamespacePrivilegeGroup: check == whitelisted && !blacklisted "
             "(blacklist wins, *_is_all switches, missing lists), default-namespace names are mapped to the one default key and then judged by the same predicate, "
             "flag byte round trip. Config listing (unit configindex, real TenantIndex::query_config_page): a namespace the privilege does not permit contributes nothing to "
-            "the page or the total, for a query that names a tenant and for a query over all tenants.",
-    "note": "NOT decided: service / namespace listing filters (NamespaceIndex, ServiceIndex), and that each console handler calls the check before acting (actix handlers/macros are outside Verus) — a handler that forgets the check is not detected. "
+            "the page or the total, for a query that names a tenant and for a query over all tenants. "
+            "Service listing (unit serviceindex, real NamespaceIndex::query_service_page): same statement for services, for a query that names a namespace and for the console listing over all namespaces.",
+    "note": "NOT decided: the namespace listing filter (namespace actor), and that each console handler calls the check before acting (actix handlers/macros are outside Verus) — a handler that forgets the check is not detected. "
             "bitflags! constants are modelled (glue.rs) and the macro text is re-checked on every run; HashSet::contains / key model per vstd + A-KEY.",
 }
 
@@ -55,8 +56,10 @@ CHECKS["C11"] = {
             "client -> instance keys changes by exactly the rule — a gRPC / cluster-owned registration with a client id is recorded under that client, the owner the service "
             "reports as replaced loses the key, a removed instance leaves the record of the client that OWNED it whoever asked for the removal, a closed connection loses its record; "
             "every other service and record is unchanged and all services stay well formed.",
-    "note": "NOT under contract: the namespace/group service index (NamespaceIndex), empty-service cleanup (clear_one_empty_service) and create_empty_service (assumed: creates an "
-            "empty well-formed service) — chrono / NamingUtils / iterator adapters; the global invariant 'every recorded key names an instance of that client' is NOT claimed "
+    "note": "Service listing index (unit serviceindex, real NamespaceIndex / ServiceIndex): insert/remove change the key set by exactly the key; query_service_page returns total = "
+            "length of THE canonical match list and page = its window; spec lemmas: every listed service is stored, matches, lies in a permitted namespace, and is listed exactly once. "
+            "NOT under contract: that NamingActor keeps the index in step with service_map (create_empty_service is assumed: creates an empty well-formed service; "
+            "clear_one_empty_service: iterator adapters) — chrono / NamingUtils / iterator adapters; the global invariant 'every recorded key names an instance of that client' is NOT claimed "
             "(only each operation's exact effect on the record); get_all_instances not under contract; TimeoutSet and Addr are shims; A-KEY for the key types.",
 }
 CHECKS["C12"] = {
